@@ -1059,6 +1059,15 @@ def gen_c15(ctx):
                 # every single violation once more on a call without right-hand sides (legal by itself)
                 for v in range(nv):
                     out.append(({'variant': 'plain', 'prec': prec}, {'cmd': 'args', 'rt': rt, 'v1': v, 'n': 4 + v % 3, 'seed': 9 + v, 'nrhs0': 1}))
+            if rt == 'gssvx':
+                # every single violation once more on a call that also carries legal-but-unusual options (workspace query, transposed solve
+                # with 3 threads, caller-supplied workspace), column- and row-wise, with and without right-hand sides
+                for v in range(nv):
+                    for lg in (1, 2, 3):
+                        cc = {'cmd': 'args', 'rt': rt, 'v1': v, 'n': 4 + v % 3, 'seed': 17 + v + 100 * lg, 'legal': lg}
+                        if (v + lg) % 3 == 0: cc['anr'] = 1
+                        if (v + lg) % 4 == 1: cc['nrhs0'] = 1
+                        out.append(({'variant': 'asan' if (v + lg) % 2 else 'plain', 'prec': prec}, cc))
             pairs = [(a, b) for a in range(nv) for b in range(a + 1, nv) if not (rt == 'gssvx' and ((a == 1 and b in EQV) or (a in EQV and b in EQV)))]
             for a, b in pairs:
                 out.append(({'variant': 'plain' if (a + b) % 3 else 'asan', 'prec': prec}, {'cmd': 'args', 'rt': rt, 'v1': a, 'v2': b, 'n': 5, 'seed': 11 + a * 31 + b}))
